@@ -47,14 +47,20 @@ func (a *SparseInt8Vector) EQUALS(b *SparseInt8Vector, epsilon float64) bool {
   }
   for it := a.JOINT_ITERATOR_(b); it.Ok(); it.Next() {
     s1, s2 := it.GET()
-    if s1.ptr == nil {
-      return false
-    }
-    if s2.ptr == nil {
-      return false
-    }
-    if !s1.EQUALS(s2, epsilon) {
-      return false
+    // a missing entry is zero
+    switch {
+    case s1.ptr == nil:
+      if !s2.Equals(ConstInt8(0.0), epsilon) {
+        return false
+      }
+    case s2.ptr == nil:
+      if !s1.Equals(ConstInt8(0.0), epsilon) {
+        return false
+      }
+    default:
+      if !s1.EQUALS(s2, epsilon) {
+        return false
+      }
     }
   }
   return true
@@ -293,21 +299,7 @@ func (r *SparseInt8Vector) VdivS(a ConstVector, b ConstScalar) Vector {
   return r
 }
 func (r *SparseInt8Vector) VDIVS(a *SparseInt8Vector, b Int8) *SparseInt8Vector {
-  if r.Dim() != a.Dim() {
-    panic("vector dimensions do not match")
-  }
-  for it := r.JOINT_ITERATOR_(a); it.Ok(); it.Next() {
-    s_r := it.s1
-    s_a := it.s2
-    if s_r.ptr == nil {
-      s_r = r.AT(it.Index())
-    }
-    if s_a.ptr == nil {
-      s_r.SetInt8(0.0)
-    } else {
-      s_r.DIV(s_a, b)
-    }
-  }
+  r.VdivS(a, b)
   return r
 }
 /* -------------------------------------------------------------------------- */
